@@ -1,7 +1,7 @@
 """C15 -- package type names map one-to-one, case-insensitively."""
 from .std import *
 from . import ref as R_
-from mirsym.models import ModelSerializer, Formatter
+from mirsym.models import ModelSerializer, ModelDeserializer, Formatter
 
 ID = 'C15'
 PROGS = ['default', 'serde']
@@ -77,6 +77,42 @@ def h_converse(L, parts):
     return 'parsed'
 
 
+def pt_deserialize(I, b):
+    return I.call("<%s as Deserialize<'_>>::deserialize::<ModelDeserializer>" % PT, [ModelDeserializer('enum_str', list(b))])
+
+
+def h_de_agree(L, variant):
+    """the serde form read back: deserialising the name yields the variant"""
+    I = L.I
+    want = list(NAMES[variant].encode())
+    L.expect_native({'op': 'ptype_de', 's': SymStr(want)}, {'ok': {'name': SymStr(want)}})
+    r = pt_deserialize(I, want)
+    if r.variant != 'Ok' or r.fields[0].variant != variant:
+        L.fail('deserialising the serde form %s does not return the type' % NAMES[variant])
+    return 'agree'
+
+
+def h_de_converse(L, parts):
+    """any string value that deserialises to a package type is that type's name (up to ASCII case)"""
+    I = L.I
+    s, _ = template_bytes(L, parts)
+    L.assume_utf8(s)
+    req = {'op': 'ptype_de', 's': SymStr(s)}
+    L.expect_native(req, {})
+    r = pt_deserialize(I, s)
+    if r.variant == 'Err':
+        return 'refused'
+    v = r.fields[0].variant
+    want = list(NAMES[v].encode())
+    L.expect_native(req, {'ok': {'name': SymStr(want)}})
+    low = R_.lower(L, s)
+    if len(low) != len(want):
+        L.fail('a string of another length deserialises to %s' % NAMES[v])
+        return 'parsed'
+    L.check('ASCII-lower-cased string value == name of the deserialised type', bytes_eq_term(low, want))
+    return 'parsed'
+
+
 def queries(tier):
     deep = 1 if tier == 'thorough' else 0      # the former thorough bounds are the quick bounds now
     th = True
@@ -93,6 +129,16 @@ def queries(tier):
         for i in range(len(nm)):
             for n in ((1, 2, 3) if th else (2, 3)):
                 qs.append(Query('converse %s with char %d replaced by ⟦%d⟧' % (nm, i, n), h_converse, {'parts': [nm[:i], ('hole', 'h', n), nm[i + 1:]]}, bound='%s with letter %d replaced by any %d-byte string' % (nm, i, n)))
+    # the serde form read back (serde feature): derived Deserialize, driven through its identifier visitor
+    for v in NAMES:
+        qs.append(Query('serde deserialize agree %s' % v, h_de_agree, {'variant': v}, bound='the string value %s' % NAMES[v], prog='serde'))
+    for n in lens(6 + deep):
+        qs.append(Query('serde deserialize converse ⟦%d⟧' % n, h_de_converse, {'parts': [('hole', 'h', n)]}, bound='every valid-UTF-8 string value of %d bytes' % n, prog='serde'))
+    for nm in NAMES.values():
+        qs.append(Query('serde deserialize converse %s⟦2⟧' % nm, h_de_converse, {'parts': [nm, ('hole', 'h', 2)]}, bound='%s followed by any 2-byte string' % nm, prog='serde'))
+        for i in range(len(nm)):
+            qs.append(Query('serde deserialize converse %s with char %d replaced by ⟦2⟧' % (nm, i), h_de_converse, {'parts': [nm[:i], ('hole', 'h', 2), nm[i + 1:]]},
+                            bound='%s with letter %d replaced by any ≤2-byte string' % (nm, i), prog='serde'))
     return qs
 
 
@@ -104,6 +150,14 @@ def confirm(v, resp):
     if 'panic' in resp:
         return 'panicked: %s' % resp['panic']
     s = bytes.fromhex(v['case']['s'])
+    if v['case']['op'] == 'ptype_de':
+        asc = bytes(c + 32 if 65 <= c <= 90 else c for c in s)
+        if 'ok' in resp:
+            name = hx(resp['ok']['name'])
+            return None if asc == name else 'the string value %r deserialises to the package type %r' % (s.decode('utf8', 'replace'), name.decode())
+        if s.decode('utf8', 'replace') in NAMES.values():
+            return 'the serde form %r does not deserialise: %s' % (s.decode(), resp.get('err'))
+        return None
     if 'ok' in resp:
         o = resp['ok']
         forms = {hx(o[k]) for k in ('name', 'display', 'as_ref', 'into', 'package_type')}
@@ -144,4 +198,4 @@ LEVEL_TEXT = ('bounded symbolic model checking of the real MIR: for each variant
               '(default and serde feature dumps) and from_str on all 2^len case variants is one query with a symbolic flip mask; the converse runs from_str on every valid-UTF-8 '
               'string up to the stated length and on every name with a free scalar value inserted or substituted (look-alikes included); the case-folding of the lookup key '
               'comes from a table dumped from the real unicase crate')
-ASSUMPTIONS = ['phf perfect hashing is trusted: Map::get is modelled as "the entry whose UniCase key equals the query"', 'serde Deserialize of PackageType is not exercised (only Serialize)']
+ASSUMPTIONS = ['phf perfect hashing is trusted: Map::get is modelled as "the entry whose UniCase key equals the query"', 'derived Deserialize of PackageType is driven through the identifier-as-string path (self-describing formats); variant indices / byte identifiers of binary formats are outside']
